@@ -89,6 +89,10 @@ fn history_engines(tier: Tier, budget: f64) -> (BfsStats, Vec<Found>, Vec<String
         found.extend(r.found);
         models.extend(r.models);
     }
+    let r = crate::chain13::explore(tier, budget / 4.0);
+    merge_stats(&mut stats, &r.stats);
+    found.extend(r.found);
+    models.extend(r.models);
     (stats, found, models)
 }
 
@@ -113,6 +117,25 @@ pub fn c11(tier: Tier) -> i32 {
         o.insert("rule".into(), json!("one crash/restore per explored transition (distinct (state, request) pairs); non-trivial = distinct canonical states reached, each restored and compared"));
     }
     run.finish(cov)
+}
+
+pub fn c13(tier: Tier) -> i32 {
+    let mut run = Run::new("C13", tier, "model_checking", "chain13");
+    let r = crate::chain13::explore(tier, tier.pick(45.0, 1200.0));
+    let others = add_found(&mut run, "C13", &r.found);
+    run.assume("regtest chain above genesis, <= 3 (4) blocks; 0-4 trusted oracles; one defect per request; defects signed by *trusted* oracles over a wrong filter header are outside the property (the oracle is trusted)");
+    run.assume("on top of a tip recorded without a filter header (genesis) proofs are not checked: only header defects are injected there (documented upgrade path)");
+    run.assume("saw_block (a block start was seen on the wire) is not part of the compared state");
+    run.finish(mc_coverage(&r.stats, &r.models, json!({"violations_of_other_properties_seen": others})))
+}
+
+pub fn c14(tier: Tier) -> i32 {
+    let mut run = Run::new("C14", tier, "model_checking", "chainmc");
+    let r = crate::chainmc::explore(tier, tier.pick(45.0, 1500.0));
+    let others = add_found(&mut run, "C14", &r.found);
+    run.assume("transaction menu: funding (two inputs), two double-spends, mutual close, holder/counterparty/revoked commitment, sweep, first- and second-level HTLC spends, unrelated; blocks of <= 2 (3) menu transactions, chains of <= 3 (4) blocks above the base");
+    run.assume("view = monitor State (without saw_block / saw_forget_channel), ChainState, ListenSlot, tracker tip/height/header window");
+    run.finish(mc_coverage(&r.stats, &r.models, json!({"violations_of_other_properties_seen": others})))
 }
 
 pub fn c16(tier: Tier) -> i32 {
@@ -145,6 +168,8 @@ pub fn dump(engine: &str, tier: Tier) -> i32 {
     let found = match engine {
         "holder" => chanfsm::explore(tier, Side::Holder, true, 600.0).found,
         "cp" => chanfsm::explore(tier, Side::Cp, true, 600.0).found,
+        "chain" => crate::chainmc::explore(tier, 900.0).found,
+        "c13" => crate::chain13::explore(tier, 900.0).found,
         _ => vec![],
     };
     for f in &found {
